@@ -26,6 +26,36 @@ type feCase struct {
 	s      *schema.Schema
 	text   string
 	feat   map[string]bool
+	place  *schema.Placement // C16/C17: text derived by inserting a comment at a token boundary
+}
+
+// placementCases derives comment-placement texts from the default-layout print of the
+// hand-built families and of part of the random schemas.
+func placementCases(r *core.Run, base []feCase) []feCase {
+	rng := rand.New(rand.NewSource(r.Seed*31 + 5))
+	var out []feCase
+	nr := 0
+	for _, c := range base {
+		if c.layout.Name != schema.Layouts[0].Name {
+			continue
+		}
+		max := 40
+		if strings.HasPrefix(c.name, "random") {
+			nr++
+			if !r.Thorough() && nr%5 != 0 {
+				continue
+			}
+			max = 12
+		}
+		if r.Thorough() {
+			max = 0
+		}
+		for _, pl := range schema.Placements(c.text, rng, max) {
+			pl := pl
+			out = append(out, feCase{name: c.name + "+" + pl.Form + "@" + pl.At, layout: schema.Layout{Name: "comment-insert"}, s: c.s, text: pl.Text, feat: c.feat, place: &pl})
+		}
+	}
+	return out
 }
 
 // frontCorpus builds the AST x layout corpus shared by C11, C16 and C17.
@@ -166,9 +196,12 @@ func runFmt(prop string, args []string) {
 	if prop == "C16" {
 		r.Rule = "the C11 corpus (AST families x 8 layouts); each accepted text x is formatted by the real Format in a child process, the output is parsed by the real ReadFile " +
 			"and compared with File(x) on everything except Comment/Tags; File(x) itself must equal the expected-File model so the comparison cannot be vacuous. " +
+			"Added to that: texts derived from the default-layout print by inserting a block comment, a line comment or both at a token boundary (after ; { } ] , = ) -> and at line starts); " +
+			"those that ReadFile accepts are in the domain and File(x) is compared with File(Format(x)) directly. " +
 			"distinct_nontrivial = distinct (schema, layout) pairs with at least one definition."
 	} else {
 		r.Rule = "the C11 corpus (AST families x 8 layouts); for each accepted text x whose first Format succeeds, Format(Format(x)) must equal Format(x) byte for byte. " +
+			"Added to that: texts derived from the default-layout print by inserting a block comment, a line comment or both at a token boundary; those that ReadFile accepts are in the domain. " +
 			"distinct_nontrivial = distinct (schema, layout) pairs with at least one definition whose first Format succeeded."
 	}
 	r.Assume = []string{"inputs are restricted to texts ReadFile accepts"}
@@ -177,6 +210,7 @@ func runFmt(prop string, args []string) {
 		fatalSetup(r, err)
 	}
 	cases := frontCorpus(r, nil)
+	cases = append(cases, placementCases(r, cases)...)
 	texts := make([][]byte, len(cases))
 	for i, c := range cases {
 		texts[i] = []byte(c.text)
@@ -217,7 +251,13 @@ func runFmt(prop string, args []string) {
 				continue // not in the domain (C11 reports those)
 			}
 			want, ok := schema.Expected(c.s)
-			if !ok || schema.Diff(want, *x[i].File, schema.DiffOpts{IgnoreFileName: true, IgnoreComments: true}) != "" {
+			if c.place != nil {
+				// an inserted comment may legitimately change what the text means (a line comment
+				// swallowing the rest of a line); the text is in the domain as long as it is accepted
+				if fileDefs(x[i].File) == 0 {
+					continue
+				}
+			} else if !ok || schema.Diff(want, *x[i].File, schema.DiffOpts{IgnoreFileName: true, IgnoreComments: true}) != "" {
 				r.Hist("skipped: ReadFile(x) does not match the model (C11's business)")
 				continue
 			}
@@ -227,6 +267,10 @@ func runFmt(prop string, args []string) {
 			}
 			r.Eval(key)
 			loc := map[string]string{"layout": c.layout.Name}
+			if c.place != nil {
+				loc["at"], loc["form"] = c.place.At, c.place.Form
+			r.Hist("accepted comment placement: " + c.place.Form + " " + c.place.At)
+			}
 			for _, ft := range []string{"enum.typed", "enum.flags", "import", "type.suffix_array_2d", "type.array_2d"} {
 				if c.feat[ft] {
 					loc[ft] = "yes"
@@ -295,6 +339,10 @@ func runFmt(prop string, args []string) {
 		}
 		r.Eval(key)
 		loc := map[string]string{"layout": c.layout.Name}
+		if c.place != nil {
+			loc["at"], loc["form"] = c.place.At, c.place.Form
+			r.Hist("accepted comment placement: " + c.place.Form + " " + c.place.At)
+		}
 		for _, ft := range []string{"enum.typed", "enum.flags", "import", "type.suffix_array_2d", "type.array_2d"} {
 			if c.feat[ft] {
 				loc[ft] = "yes"
@@ -323,4 +371,11 @@ func runFmt(prop string, args []string) {
 		}
 	}
 	finish(r)
+}
+
+func fileDefs(f *model.File) int {
+	if f == nil {
+		return 0
+	}
+	return len(f.Structs) + len(f.Messages) + len(f.Enums) + len(f.Unions) + len(f.Consts)
 }
